@@ -142,8 +142,16 @@ class PopState(object):
             sel = None
             if l.cov:
                 sel = [list(s) for s in l.cov['sel']]
-                if l.kind == 'H':
-                    sel = None
+                if l.kind == 'H' and not l.cov['full']:
+                    # (the selection of ID-specific parameters is kept for
+                    # the individuals that remain; an empty selection
+                    # becomes the default selection of all parameters)
+                    sel = [s for s in sel if s[0] < n_ids] or None
+                    if sel is None:
+                        out.append(GP.make_leaf(
+                            l.kind, l.n_dim, l.centered, l.cov['n_cov'],
+                            None, n_ids))
+                        continue
             out.append(GP.make_leaf(l.kind, l.n_dim, l.centered,
                                     l.cov['n_cov'] if l.cov else 0,
                                     sel if l.cov and not l.cov['full']
@@ -461,7 +469,7 @@ def pop_random_case(ctx, rng, idx):
     n_ids = int(rng.integers(1, 5))
     total = [3, 4, None][idx % 3]
     leaves = GP.random_composition(rng, n_ids, total_dim=total,
-                                   p_cov=0.3, cov_kinds='GLTP')
+                                   p_cov=0.3, cov_kinds='GLTPH')
     reduced = rng.random() < 0.5
     ops = [POP_OPS[int(rng.integers(len(POP_OPS)))]
            for _ in range(int(rng.integers(1, 9)))]
